@@ -271,7 +271,7 @@ type Result struct {
 // JournalCases makes Check write every case to the journal file (VERIF_JOURNAL)
 // before executing it, so that a case that kills the process can be recovered
 // by the driver.
-var JournalCases bool
+var JournalCases = true
 
 // ReplayFile is the on-disk form of a failing case.
 type ReplayFile struct {
